@@ -98,18 +98,31 @@ Inductive tx :=
 Record blk := mkBlk {
   b_time : Z;                             (* header time, ns *)
   b_oracle : Inflation.oracle;            (* bonded tokens seen by the inflation hook *)
+  b_fresh : Z;                            (* oracle: the address a Turnstile deployment in this block yields *)
   b_txs : list tx;
   b_gov : list param_update               (* proposals passing in this block's gov EndBlocker, in order *)
 }.
 
-(** * BeginBlock: the epoch clock with its inflation listener (the only
-      begin-blocker of the Canto modules that touches the projection; csr's
-      deploys the Turnstile once, which is part of the genesis of this model) *)
+(** * BeginBlock: the epoch clock with its inflation listener, then (app.go
+      order: epochs ... csr) csr's begin-blocker, which deploys the Turnstile
+      when none is recorded and CSR is enabled (x/csr/module.go BeginBlock).
+      Whether it deploys is decided by the COMMITTED state alone -- not by how
+      long the process has been running.  The deployment is an EVM call of the
+      module account; the address it yields is the oracle input [b_fresh]. *)
+Definition csr_begin_block (fresh : Z) (r : Csr.state) : Csr.state :=
+  match Csr.turnstile (Csr.cfg r) with
+  | Some _ => r
+  | None =>
+      if Csr.enable (Csr.cfg r)
+      then Csr.mkState (Csr.reg r) (Csr.mon r) (Csr.mkCfg (Some fresh) (Csr.enable (Csr.cfg r)) (Csr.share (Csr.cfg r)))
+      else r
+  end.
+
 Definition begin_blocker (b : blk) (h : Z) (s : cstate) : option cstate :=
   r <- Inflation.block (c_day s) (b_oracle b) (b_time b) h (c_epochs s) (c_infl s) ;;
   let '(es, i) := r in
   let d := Inflation.st_supply i - Inflation.st_supply (c_infl s) in
-  Some (mkC es i (swap_add_supply d (c_swap s)) (csr_add_supply d (c_csr s))
+  Some (mkC es i (swap_add_supply d (c_swap s)) (csr_begin_block (b_fresh b) (csr_add_supply d (c_csr s)))
             (c_auth s) (c_pver s) (b_time b) (c_day s) (c_gov s)).
 
 (** * Updates of module params *)
